@@ -151,6 +151,9 @@ SOILS = {
 }
 
 
+LAYERED = {"Paddy", "TunisLocal", "lowKsub", "fastOverSlow", "pen40", "fc4dec", "texture"}
+
+
 def soil_spec(label):
     return copy.deepcopy(SOILS[label])
 
@@ -171,8 +174,9 @@ def make_soil(spec):
     return soil
 
 
-def make_iwc(spec, n_layers):
-    """spec: 'FC' | 'WP' | 'SAT' | ('Pct', v) | ('PctDepth', [d..],[v..]) | ('NumDepth',[d..],[v..])"""
+def make_iwc(spec, n_layers, soil=None):
+    """spec: 'FC' | 'WP' | 'SAT' | ('Pct', v) | ('PctDepth', [d..],[v..]) | ('NumDepth',[d..],[v..])
+    | ('NumLayer', [f1, f2, ..]) = numeric value th_wp + f*(th_s - th_wp) per layer (f cycled)"""
     if isinstance(spec, str):
         return InitialWaterContent(wc_type="Prop", method="Layer",
                                    depth_layer=list(range(1, n_layers + 1)),
@@ -182,9 +186,22 @@ def make_iwc(spec, n_layers):
         return InitialWaterContent(wc_type="Pct", method="Layer",
                                    depth_layer=list(range(1, n_layers + 1)),
                                    value=[spec[1]] * n_layers)
+    if kind == "PctLayer":
+        return InitialWaterContent(wc_type="Pct", method="Layer",
+                                   depth_layer=list(range(1, n_layers + 1)),
+                                   value=[spec[1][(l) % len(spec[1])] for l in range(n_layers)])
     if kind == "PctDepth":
         return InitialWaterContent(wc_type="Pct", method="Depth",
                                    depth_layer=list(spec[1]), value=list(spec[2]))
+    if kind == "NumLayer":
+        vals = []
+        for l in range(1, n_layers + 1):
+            rows = soil.profile[soil.profile.Layer == l]
+            wp, sat = float(rows.th_wp.iloc[0]), float(rows.th_s.iloc[0])
+            f = spec[1][(l - 1) % len(spec[1])]
+            vals.append(round(wp + f * (sat - wp), 4))
+        return InitialWaterContent(wc_type="Num", method="Layer",
+                                   depth_layer=list(range(1, n_layers + 1)), value=vals)
     if kind == "NumDepth":
         return InitialWaterContent(wc_type="Num", method="Depth",
                                    depth_layer=list(spec[1]), value=list(spec[2]))
@@ -215,7 +232,7 @@ def build_model(cfg):
     start, end, off_season.  Returns a fresh AquaCropModel (nothing is shared)."""
     soil = make_soil(cfg["soil"])
     crop = Crop(cfg["crop"], planting_date=cfg["planting"], **cfg.get("crop_kw", {}))
-    iwc = make_iwc(cfg.get("iwc", "FC"), soil.nLayer)
+    iwc = make_iwc(cfg.get("iwc", "FC"), soil.nLayer, soil)
     kwargs = {}
     if cfg.get("irr") is not None:
         kwargs["irrigation_management"] = make_irr(cfg["irr"])
@@ -367,11 +384,14 @@ class Fails:
     def __init__(self):
         self.d = {}
 
-    def add(self, clause, text, detail, mag=0.0, day=None):
-        e = self.d.get(clause)
+    def add(self, clause, text, detail, mag=0.0, day=None, tag=None):
+        """tag: recognised mechanism (the factors that determine this failure); None -> the full
+        configuration description is used in the signature"""
+        key = (clause, tag)
+        e = self.d.get(key)
         if e is None:
-            self.d[clause] = {"clause": clause, "text": text, "first": detail, "first_day": day,
-                              "days": 1, "worst": float(abs(mag))}
+            self.d[key] = {"clause": clause, "tag": tag, "text": text, "first": detail, "first_day": day,
+                           "days": 1, "worst": float(abs(mag))}
         else:
             e["days"] += 1
             if abs(mag) > e["worst"]:
@@ -415,6 +435,11 @@ def run_config(cfg, prop, max_days=None):
         res["model_exception"] = "init: %s: %s" % (type(e).__name__, str(e)[:200])
         return res
     try:
+        pr = model._param_struct.Soil.Profile
+        th_i = np.asarray(model._init_cond.th, dtype=float)
+        if np.any(th_i < pr.th_wp - 1e-12) or np.any(th_i > pr.th_s + 1e-12):
+            res["harness_exception"] = "lattice: initial water content outside [th_wp, th_s]; configuration not used"
+            return res
         _monitor(cfg, prop, model, F, res, max_days)
     except Exception as e:
         res["harness_exception"] = "%s: %s | %s" % (type(e).__name__, str(e)[:300],
@@ -480,7 +505,9 @@ def _monitor(cfg, prop, model, F, res, max_days):
                           "start (off-season not simulated)",
                           "season %d start %s: th[%d]=%.6f but configured initial %.6f (max over "
                           "compartments)" % (season, date.date(), j, th0[j], th_init[j]),
-                          float(np.max(np.abs(th0 - th_init)) * 1000 * dz[j]), str(date.date()))
+                          float(np.max(np.abs(th0 - th_init)) * 1000 * dz[j]), str(date.date()),
+                          tag=("irr=4|iwc=%s|stored-initial-wc-raised-by-pre-irrigation" % iwc_label(cfg.get("iwc", "FC"))
+                               if (int(ps.IrrMngt.irrigation_method) == 4 and np.all(th0 >= th_init)) else None))
                 fm = ps.FieldMngt
                 ss_exp = min(fm.bund_water, fm.z_bund) if (fm.bunds and fm.z_bund > 0.001) else 0.0
                 if ss0 != ss_exp:
@@ -532,6 +559,11 @@ def _monitor(cfg, prop, model, F, res, max_days):
             irr_sum[season] = irr_sum.get(season, 0.0) + IrrDay
         if TRACE.get("harvest_flag") and (season not in harvested) and season >= 0:
             harvested.append(season)
+
+        # downstream of roots leaving [Zmin, Zmax] on a soil with a restrictive layer (C05's clause)
+        roots_out = None
+        if gs and np.any(prof.Penetrability < 100) and float(cg[CG["z_root"]]) < float(crop.Zmin) - 1e-9:
+            roots_out = "z_root<Zmin on penetrability<100 soil"
 
         # ------------------------------------------------------------------ C01
         if prop == "C01":
@@ -604,12 +636,12 @@ def _monitor(cfg, prop, model, F, res, max_days):
                 j = int(np.argmin(lo))
                 F.add("C03.th_ge_air_dry", "th >= th_dry for every compartment",
                       "%s dap=%d: th[%d]=%.8f < th_dry %.8f" % (dstr, int(ws[2]), j, th1[j], th_dry[j]),
-                      float(lo[j]), dstr)
+                      float(lo[j]), dstr, tag=roots_out)
             if np.any(hi > tol):
                 j = int(np.argmax(hi))
                 F.add("C03.th_le_saturation", "th <= th_s for every compartment",
                       "%s dap=%d: th[%d]=%.8f > th_s %.8f" % (dstr, int(ws[2]), j, th1[j], th_s[j]),
-                      float(hi[j]), dstr)
+                      float(hi[j]), dstr, tag=roots_out)
             if ss1 < 0:
                 F.add("C03.ponding_nonneg", "surface_storage >= 0", "%s: %.6e" % (dstr, ss1), ss1, dstr)
             zb = float(fm.z_bund) if bunds_eff else 0.0
@@ -635,15 +667,18 @@ def _monitor(cfg, prop, model, F, res, max_days):
                 if v < -1e-12:
                     F.add("C04.%s_nonneg" % nm, "%s >= 0" % nm,
                           "%s dap=%d: %s=%.6e (canopy_cover=%.4f)" % (dstr, int(ws[2]), nm, v,
-                                                                    cg[CG["canopy_cover"]]), v, dstr)
+                                                                    cg[CG["canopy_cover"]]), v, dstr,
+                          tag=("%s|canopy_cover>0.966" % cfg["crop"]
+                               if (nm == "EsPot" and cg[CG["canopy_cover"]] > 0.966) else roots_out))
             if Es > EsPot + tol:
                 F.add("C04.Es_le_EsPot", "Es <= EsPot",
                       "%s dap=%d: Es=%.6f EsPot=%.6f (canopy_cover=%.4f)" % (dstr, int(ws[2]), Es, EsPot,
                                                                             cg[CG["canopy_cover"]]),
-                      Es - EsPot, dstr)
+                      Es - EsPot, dstr,
+                      tag=("%s|canopy_cover>0.966" % cfg["crop"] if cg[CG["canopy_cover"]] > 0.966 else None))
             if Tr > TrPot + tol:
                 F.add("C04.Tr_le_TrPot", "Tr <= TrPot", "%s: Tr=%.6f TrPot=%.6f" % (dstr, Tr, TrPot),
-                      Tr - TrPot, dstr)
+                      Tr - TrPot, dstr, tag=roots_out)
             if not gs and (Tr != 0 or TrPot != 0 or IrrDay != 0):
                 F.add("C04.zero_out_of_season", "out of season Tr = TrPot = IrrDay = 0",
                       "%s: Tr=%.4e TrPot=%.4e IrrDay=%.4e" % (dstr, Tr, TrPot, IrrDay),
@@ -654,7 +689,7 @@ def _monitor(cfg, prop, model, F, res, max_days):
         # ------------------------------------------------------------------ C05
         elif prop == "C05":
             _check_c05(F, cg, wf, ws, gs, crop, ps, prev_cg, prev_gs, prev_season, season, dstr,
-                       weather[tsc])
+                       weather[tsc], prof)
             if gs and cg[CG["canopy_cover"]] > 0:
                 nontriv = True
 
@@ -747,8 +782,9 @@ def _monitor(cfg, prop, model, F, res, max_days):
 
 
 # ------------------------------------------------------------------------------ C05 clauses
-def _check_c05(F, cg, wf, ws, gs, crop, ps, prev_cg, prev_gs, prev_season, season, dstr, wrow):
+def _check_c05(F, cg, wf, ws, gs, crop, ps, prev_cg, prev_gs, prev_season, season, dstr, wrow, prof):
     tol = 1e-12
+    roottag = ("penetrability<100|gw=%d" % int(ps.water_table == 1)) if np.any(prof.Penetrability < 100) else None
     dap = int(cg[CG["dap"]])
     if not np.all(np.isfinite(cg)):
         bad = [n for n, i in CG.items() if not np.isfinite(cg[i])]
@@ -778,7 +814,7 @@ def _check_c05(F, cg, wf, ws, gs, crop, ps, prev_cg, prev_gs, prev_season, seaso
     if zr < zmin - 1e-9 or zr > zmax + 1e-9:
         F.add("C05.zroot_in_Zmin_Zmax", "Zmin <= z_root <= Zmax",
               "%s dap=%d: z_root=%.5f Zmin=%.2f Zmax=%.2f" % (dstr, dap, zr, zmin, zmax),
-              max(zmin - zr, zr - zmax), dstr)
+              max(zmin - zr, zr - zmax), dstr, tag=roottag)
     wt = ps.water_table == 1
     zgw = float(wf[WF["z_gw"]])
     if wt and zgw > 0 and zr > zgw + 1e-9 and not (zgw < zmin):
@@ -790,7 +826,7 @@ def _check_c05(F, cg, wf, ws, gs, crop, ps, prev_cg, prev_gs, prev_season, seaso
         forced = wt and zgw > 0 and abs(zr - max(zgw, zmin)) < 1e-9
         if zr < zr0 - 1e-9 and not forced:
             F.add("C05.zroot_nondecreasing", "z_root never shrinks except when a rising water table forces it",
-                  "%s dap=%d: z_root %.6f -> %.6f" % (dstr, dap, zr0, zr), zr0 - zr, dstr)
+                  "%s dap=%d: z_root %.6f -> %.6f" % (dstr, dap, zr0, zr), zr0 - zr, dstr, tag=roottag)
         for nm in ("harvest_index", "biomass", "gdd_cum"):
             if float(cg[CG[nm]]) < float(prev_cg[CG[nm]]) - tol * (1 + abs(prev_cg[CG[nm]])):
                 F.add("C05.%s_nondecreasing" % nm, "%s never decreases within a season" % nm,
@@ -953,7 +989,8 @@ def _check_c19(F, T, ps, prof, wf, th1, th_s, th_fc, zmid, CR, GwIn, zgw_exp, ts
             j = int(np.argmax(lift))
             F.add("C19.CR_not_above_fcadj", "capillary rise never lifts a compartment above adjusted FC",
                   "%s: comp %d th %.8f -> %.8f, fcAdj %.8f (excess %.2e)" % (dstr, j, b[j], a_[j], fca[j], lift[j]),
-                  float(lift[j]), dstr)
+                  float(lift[j]), dstr,
+                  tag=("excess<=5e-5(room rounded to 4 decimals)" if float(np.max(lift)) <= 5e-5 + 1e-12 else None))
     return bool(CR > 0 or GwIn > 0)
 
 
@@ -991,12 +1028,18 @@ def run_far_twin(cfg):
                         nm, r, c, A[r, c], B[r, c], float(np.nanmax(np.abs(A - B))))
                 else:
                     det = "%s shapes differ %s %s" % (nm, A.shape, B.shape)
-                F.add("C19.far_table_equals_none." + nm, "a water table far below the profile gives the same results as none",
-                      det, 1.0)
+                mx = float(np.nanmax(np.abs(A - B))) if A.shape == B.shape else 1.0
+                F.add("C19.far_table_equals_none", "a water table far below the profile gives the same results as none",
+                      det, mx, tag="%s|iwc=%s|%s" % (cfg["soil_label"], iwc_label(cfg.get("iwc", "FC")),
+                                                     "ulp-level" if mx < 1e-9 else "macroscopic"))
         fa, fb = a._outputs.final_stats, b._outputs.final_stats
         if not fa.equals(fb):
-            F.add("C19.far_table_equals_none.final_stats", "a water table far below the profile gives the same results as none",
-                  "summary differs: %s vs %s" % (fa.iloc[:, 4:].values.tolist(), fb.iloc[:, 4:].values.tolist()), 1.0)
+            dd = float(np.max(np.abs(fa.iloc[:, 4:].values.astype(float) - fb.iloc[:, 4:].values.astype(float)))) \
+                if fa.shape == fb.shape else 1.0
+            F.add("C19.far_table_equals_none", "a water table far below the profile gives the same results as none",
+                  "summary differs: %s vs %s" % (fa.iloc[:, 4:].values.tolist(), fb.iloc[:, 4:].values.tolist()), dd,
+                  tag="%s|iwc=%s|%s" % (cfg["soil_label"], iwc_label(cfg.get("iwc", "FC")),
+                                        "ulp-level" if dd < 1e-9 else "macroscopic"))
         res["days"] = int(np.count_nonzero(table(a._outputs.water_storage)[:, 3] != 0))
         res["nontrivial"] = True
         res["fails"] = list(F.d.values())
@@ -1054,7 +1097,7 @@ FIELD_LEVELS = [
 ]
 GW_LEVELS = ["none", "c2.66", "c1.2", "c0.6", "c0.25", "vdeepshallow", "vshallow", "cstep", "c7"]
 IWC_LEVELS = ["FC", "WP", "SAT", ("Pct", 50), ("PctDepth", [0.3, 1.0], [30, 80]),
-              ("NumDepth", [0.2, 0.9], [0.16, 0.24])]
+              ("NumLayer", [0.25, 0.6, 0.4])]
 WX_LEVELS = [{"kind": "tunis"}, {"kind": "champion"}, {"kind": "syn", "pattern": "storm"},
              {"kind": "syn", "pattern": "drought"}, {"kind": "syn", "pattern": "mixed"},
              {"kind": "syn", "pattern": "wet"}]
@@ -1129,6 +1172,9 @@ def make_cfg(idx, crop, soil_label, irr, field, gwlevel, iwc, wx, off, nseasons,
     irr = copy.deepcopy(irr)
     if irr.get("schedule") == "rel":
         irr["schedule"] = _schedule(p0, nseasons, start, end)
+    if (not isinstance(iwc, str)) and iwc[0] == "PctDepth" and soil_label in LAYERED:
+        # by-depth interpolation across layers with different th_wp leaves [th_wp, th_s]: use per-layer %
+        iwc = ("PctLayer", list(iwc[2]) + [55])
     fl, fspec, fallow = field
     fallow_spec = copy.deepcopy(fspec) if fallow == "same" else copy.deepcopy(fallow)
     cfg = {"idx": idx, "crop": crop, "planting": planting, "soil_label": soil_label,
@@ -1174,8 +1220,8 @@ def lattice(prop, tier, seed):
     rng = random.Random(int(seed) * 1000003 + hash_str(prop + tier))
     wseed = int(seed)
     quick = tier == "quick"
-    n = {"C01": 44, "C02": 44, "C03": 44, "C04": 44, "C05": 52, "C06": 40, "C13": 52, "C19": 36}[prop] if quick else \
-        {"C01": 900, "C02": 900, "C03": 900, "C04": 900, "C05": 1100, "C06": 700, "C13": 1000, "C19": 700}[prop]
+    n = {"C01": 96, "C02": 96, "C03": 96, "C04": 96, "C05": 112, "C06": 88, "C13": 104, "C19": 80}[prop] if quick else \
+        {"C01": 1600, "C02": 1600, "C03": 1600, "C04": 1600, "C05": 1800, "C06": 1400, "C13": 1600, "C19": 1400}[prop]
     if quick:
         crops = ["Wheat", "Maize", "DryBean", "Cotton", "PaddyRice", "Potato", "WheatGDD", "MaizeGDD",
                  "SugarBeetGDD", "Tomato", "Soybean", "AlfalfaGDD"]
@@ -1214,7 +1260,7 @@ def lattice(prop, tier, seed):
                              off, f_ns[i], pre, rng, wseed))
     twins = []
     if prop == "C19":
-        nt = 10 if quick else 120
+        nt = 16 if quick else 160
         t_soil = _balanced(rng, ["SandyLoam", "fc4dec", "texture", "Clay", "lowKsub", "Paddy"], nt)
         t_crop = _balanced(rng, ["Wheat", "Maize", "Potato", "MaizeGDD", "Tomato"], nt)
         t_irr = _balanced(rng, [IRR_LEVELS[0], IRR_LEVELS[1], IRR_LEVELS[9], IRR_LEVELS[4]], nt)
@@ -1234,7 +1280,7 @@ def lattice(prop, tier, seed):
             "out-of-window dates/depth variants) x field management(8: none, bunds, bunds removed off-season, mulches, "
             "bunds+mulches, runoff inhibited, CN +20%%, fallow-only bunds) x groundwater(%d levels: none, constant "
             "2.66/1.2/0.6/0.25/7 m, stepwise constant, variable 3-0.5 m and 1-0.2 m) x initial water content(6: FC, WP, SAT, "
-            "50%% TAW, by-depth %% TAW, by-depth numeric) x weather(6: Tunis, Champion, synthetic storm [60-300 mm days], "
+            "50%% TAW, by-depth %% TAW, numeric per layer) x weather(6: Tunis, Champion, synthetic storm [60-300 mm days], "
             "drought [no rain], mixed, wet) x off_season{F,T} x seasons{1,2,3} x lead-in days{0,25}; every simulated day "
             "of every run is checked" % (len(cfgs), base, m, len(crops), "", len(soils), len(irr), len(gwl)))
     if twins:
@@ -1296,13 +1342,14 @@ def main():
         resid = 0.0
         crgap = 0.0
         n_model_exc = 0
+        model_raised = []
         for cfg, r in zip(allcfg, results):
             if r.get("harness_exception"):
                 out["exceptions"].append("harness: cfg %d %s: %s" % (cfg["idx"], r["mech"], r["harness_exception"]))
             if r.get("model_exception"):
                 n_model_exc += 1
-                out["exceptions"].append("model-raised (configuration skipped or cut short; not a %s failure): cfg %d %s: %s"
-                                         % (a.property, cfg["idx"], mech(cfg), r["model_exception"]))
+                model_raised.append("cfg %d %s wx=%s: %s" % (cfg["idx"], mech(cfg), cfg["wx"].get("pattern", cfg["wx"]["kind"]),
+                                                              r["model_exception"]))
             if r["days"] > 0:
                 out["cases"] += 1
             days += r["days"]
@@ -1311,7 +1358,7 @@ def main():
             if r["nontrivial"]:
                 keys.add(json.dumps(slim(cfg), sort_keys=True, default=str))
             for f in r["fails"]:
-                sig = "%s|%s" % (f["clause"], r["mech"])
+                sig = "%s|%s" % (f["clause"], f["tag"] if f.get("tag") else r["mech"])
                 e = sigs.get(sig)
                 if e is None:
                     sigs[sig] = {"signature": sig, "clause": "%s: %s" % (f["clause"], f["text"]),
@@ -1334,6 +1381,10 @@ def main():
         out["distinct_nontrivial"] = len(keys)
         out["samples"] = [slim(c) for c in (cfgs[:3] + cfgs[len(cfgs) // 2: len(cfgs) // 2 + 2] + cfgs[-2:])][:8]
         out["days_checked"] = days
+        out["model_raised"] = model_raised   # configurations the model itself rejected / aborted (not failures of this property)
+        if model_raised:
+            out["lattice"] += ("; %d of them were rejected or aborted by the model itself (exception text in key 'model_raised'; "
+                               "that is C16's subject, not a failure of this property)" % len(model_raised))
         if a.property == "C01":
             out["residue_max"] = resid
             out["cr_report_gap_max"] = crgap
